@@ -1,6 +1,7 @@
 import PhysisModel.Base.Proto
 import PhysisModel.Model.Tex
 import PhysisModel.Spec.Tex
+import PhysisModel.Base.Mutate
 /-!
 C13 driver.  Case grammar (one line):
 
@@ -13,6 +14,10 @@ C13 driver.  Case grammar (one line):
 * tag `kf:bc3-colour-mode`: the texture is in the class `Spec.Bcn.Bc3ConventionsDiffer`
   (then no `model` field: see `handle`)
 * tag `triv`: no pixels
+* `mut <seed> <k> tex …` — the same encoded file (header + payload) with `k` bytes damaged
+  (`Base/Mutate.lean`); expected = the model's answer on the damaged file (tags `corr mut`, no
+  specification answer, never judged); a file the model rejects (`None`, or a panic of the pre-fix
+  code paths) is `none`, which is what the reader returns since the C18 fixes
 A case whose format code is not one of the four formats of the property, or whose payload is
 shorter than the texture needs, is outside the property's quantifier and is rejected (`bad-case`).
 `JUDGE\t<case>\t<answer>` evaluates the property predicate `Spec.Tex.DecodedOK` on `<answer>`.
@@ -80,6 +85,8 @@ def parseDecoded (s : String) : Option Spec.Tex.Decoded :=
   | _ => none
 
 def judge (caseLine ans : String) : String :=
+  -- a damaged file has no specification answer: a difference from the model is never excused
+  if (fields caseLine).head? == some "mut" then "JUDGE\tfail" else
   match parseCase (fields caseLine) with
   | none => "JUDGE\tbad-case"
   | some c =>
@@ -88,12 +95,31 @@ def judge (caseLine ans : String) : String :=
     | some r =>
       if decide (Spec.Tex.DecodedOK .bc1Modes c.fmt c.header c.payload r) then "JUDGE\tok" else "JUDGE\tfail"
 
+/-- `mut <seed> <k> tex …`: the model of the code on the damaged encoding -/
+def handleMut (seed : UInt64) (k : Nat) (fs : List String) : String :=
+  match parseCase fs with
+  | none => bad
+  | some c =>
+    -- even seeds: half of the damage inside the 16 bytes that matter most (attribute, format, width,
+    -- height, depth, mip count); odd seeds: inside the first 256 bytes (header + first blocks)
+    let file := Mutate.mutate (Spec.Tex.encode c.header c.payload) seed k (if seed % 2 == 0 then 16 else 256)
+    let model := match Tex.fromExisting file with
+      | .error _ => "none"
+      | r => showModel r
+    answer ("tex " ++ hexFast file) model ["corr", "mut"]
+
 /-- one case line in, one answer line out (see `Base/Proto.lean`) -/
 def handle (line : String) : String :=
   match line.splitOn "\t" with
   | ["JUDGE", c, a] => judge c a.trimAscii.toString
   | _ =>
-  match parseCase (fields line) with
+  match fields line with
+  | "mut" :: seed :: k :: rest =>
+    match seed.toNat?, k.toNat? with
+    | some s, some k => handleMut s.toUInt64 k rest
+    | _, _ => bad
+  | fs =>
+  match parseCase fs with
   | none => bad
   | some c =>
     let file := Spec.Tex.encode c.header c.payload
